@@ -67,6 +67,7 @@ def Skeleton.pinned : Skeleton where
   reqResolveErrSetErr := true
   reqCallViaUtilsCall := true
   reqCallErrSetErr := true
+  reqHandlerRecovers := false
   reqResponseCallIsReqCall := true
   reqResponseCount := 5
   reqRespShapesOk := true
